@@ -58,12 +58,38 @@ def lookup(f):
 g_round = z3.Function("g_round", z3.RealSort(), z3.RealSort())  # float(f"{x:g}")
 
 
-def trunc_term(x):
+def floor_term(ctx, x):
+    """floor(x) for a Real term as a fresh Int k with k <= x < k + 1 (one k per term and path).
+    (z3's own to_int is avoided: z3 5.1 diverges on x == to_real(to_int(x)).)"""
+    x = z3.simplify(x)
+    if z3.is_int(x):
+        return x
+    if z3.is_app(x) and x.decl().kind() == z3.Z3_OP_TO_REAL:
+        return x.arg(0)
+    if z3.is_rational_value(x):
+        import math as _m
+        from fractions import Fraction as _F
+
+        return z3.IntVal(_m.floor(_F(x.numerator_as_long(), x.denominator_as_long())))
+    cache = ctx.__dict__.setdefault("floor_cache", {})
+    key = x.get_id()
+    if key in cache:
+        return cache[key][0]
+    k = ctx.fresh("floor", "int")
+    cache[key] = (k, x)
+    kr = z3.ToReal(k)
+    ctx.assume(z3.And(kr <= x, x < kr + 1))
+    return k
+
+
+def trunc_term(x, ctx=None):
     """int(x) for a Real term: truncation toward zero."""
     x = z3.simplify(x)
     if z3.is_app(x) and x.decl().kind() == z3.Z3_OP_TO_REAL:
         return x.arg(0)  # int(float(n)) == n
-    return z3.If(x >= 0, z3.ToInt(x), -z3.ToInt(-x))
+    if ctx is None:
+        return z3.If(x >= 0, z3.ToInt(x), -z3.ToInt(-x))
+    return z3.If(x >= 0, floor_term(ctx, x), -floor_term(ctx, -x))
 
 
 # --------------------------------------------------------------------------- numeric built-ins
@@ -82,7 +108,7 @@ def h_int(it, x=0, base=None):
             return x
         if z3.is_bool(x):
             return z3.If(x, z3.IntVal(1), z3.IntVal(0))
-        return trunc_term(x)
+        return trunc_term(x, it.ctx)
     if isinstance(x, SObj):
         raise Undecided("int() of object")
     try:
@@ -200,14 +226,14 @@ def h_round(it, x, ndigits=None):
 @handler(math.floor)
 def h_floor(it, x):
     if is_sym(x):
-        return x if z3.is_int(x) else z3.ToInt(x)
+        return x if z3.is_int(x) else floor_term(it.ctx, x)
     return math.floor(x)
 
 
 @handler(math.ceil)
 def h_ceil(it, x):
     if is_sym(x):
-        return x if z3.is_int(x) else -z3.ToInt(-x)
+        return x if z3.is_int(x) else -floor_term(it.ctx, -x)
     return math.ceil(x)
 
 
